@@ -105,7 +105,10 @@ func msgsExec(mode msgsMode) func(t *testing.T, ssc schedrun.Scenario, o vsched.
 		// latency (the order of the two events is a scheduler choice; explored with bound 1).
 		edge := variant == "edge" || variant == "edge0"
 		var cases []*mcase
-		special := variant == "nonce" || strings.HasPrefix(variant, "undeliv") || variant == "opening" || variant == "splitfund" || variant == "halfopen"
+		// honest-traffic / step-by-step families with their own run functions (msgs_own_test.go)
+		runFam := map[string]bool{"opening": true, "splitfund": true, "halfopen": true, "syncrace": true, "fundlate": true, "heldupd": true,
+			"finundeliv-fail": true, "finundeliv-block": true}[variant]
+		special := variant == "nonce" || strings.HasPrefix(variant, "undeliv") || runFam
 		if !special {
 			cases = lookupCases(sender, names)
 		}
@@ -120,7 +123,7 @@ func msgsExec(mode msgsMode) func(t *testing.T, ssc schedrun.Scenario, o vsched.
 			}
 			w := NewWorld(n, nil, false)
 			victimBus = nil
-			if variant == "unreach" || variant == "undeliv-fail" || variant == "undeliv-block" {
+			if variant == "unreach" || variant == "undeliv-fail" || variant == "undeliv-block" || strings.HasPrefix(variant, "finundeliv") {
 				rewireVictim(w)
 			}
 			sc := &mScene{w: w, V: w.P[0], M: w.P[1], S: newStranger(77), Pt: pt}
@@ -148,7 +151,7 @@ func msgsExec(mode msgsMode) func(t *testing.T, ssc schedrun.Scenario, o vsched.
 				obs.Stage = "done"
 				return
 			}
-			if variant == "opening" || variant == "splitfund" || variant == "halfopen" {
+			if runFam {
 				obs.PropsBefore, obs.ChansBefore = len(V.ProposalsSeen), len(V.Chans)
 				sentBefore, enBefore := len(w.Bus.Sent), len(w.Enabled)
 				sc.snapshot()
@@ -160,6 +163,14 @@ func msgsExec(mode msgsMode) func(t *testing.T, ssc schedrun.Scenario, o vsched.
 					crafts = sc.splitFundRun(obs, strings.TrimPrefix(names, "splitfund/"))
 				case "halfopen":
 					sc.halfOpenRun(obs, strings.TrimPrefix(names, "halfopen/"))
+				case "syncrace":
+					obs.OwnRes = sc.syncRaceRun(strings.TrimPrefix(names, "syncrace/"))
+				case "fundlate":
+					sc.fundLateRun(obs, strings.TrimPrefix(names, "fundlate/"))
+				case "heldupd":
+					sc.heldUpdRun(obs, strings.TrimPrefix(names, "heldupd/"))
+				case "finundeliv-fail", "finundeliv-block":
+					obs.OwnRes = sc.finUndelivRun(obs, strings.TrimPrefix(names, "finundeliv/"), strings.TrimPrefix(variant, "finundeliv-"))
 				}
 				obs.Stage = "waiting"
 				vsched.Sleep(60 * time.Second)
@@ -756,6 +767,8 @@ type msgsPlan struct {
 	SplitFund bool
 	// HalfOpen family: M proposes a sub-channel, never completes the opening, later sends the matching funding update
 	HalfOpen bool
+	// SyncRace, FundLate, HeldUpd (C08), FinUndeliv: see msgs_own_test.go
+	SyncRace, FundLate, HeldUpd, FinUndeliv bool
 	// Explicit further scenarios (name -> thorough only)
 	Extra []extraScenario
 }
@@ -837,6 +850,35 @@ func msgsScenarios(mode msgsMode, plan msgsPlan) func(res *report.Result) []sche
 		if plan.SplitFund {
 			for _, m := range splitFundMembers {
 				out = append(out, schedrun.Scenario{Name: "open-v1~splitfund/M/splitfund/" + m, Mode: explore.Delay, Bound: 0, MaxSteps: 400000, Weight: 2})
+			}
+		}
+		if plan.SyncRace {
+			for _, pt := range []string{"open-v0", "open-v1", "sub-v1"} {
+				for _, m := range syncRaceMembers {
+					out = append(out, schedrun.Scenario{Name: pt + "~syncrace/M/syncrace/" + m, Mode: explore.Delay, Bound: 0, MaxSteps: 400000, Weight: 2})
+				}
+			}
+			if res.Thorough() { // all schedules with one delay for the two orders of M's sync message at open-v1
+				for _, m := range []string{"peer/sync-first", "peer/update-first"} {
+					out = append(out, schedrun.Scenario{Name: "open-v1~syncrace/S/syncrace/" + m, Mode: explore.Delay, Bound: 1, MaxSteps: 400000, Weight: 900})
+				}
+			}
+		}
+		if plan.FundLate {
+			for _, m := range fundLateMembers {
+				out = append(out, schedrun.Scenario{Name: "open-v1~fundlate/M/fundlate/" + m, Mode: explore.Delay, Bound: 0, MaxSteps: 400000, Weight: 2})
+			}
+		}
+		if plan.HeldUpd {
+			for _, m := range heldUpdMembers {
+				out = append(out, schedrun.Scenario{Name: "open-v1~heldupd/M/heldupd/" + m, Mode: explore.Delay, Bound: 0, MaxSteps: 400000, Weight: 2})
+			}
+		}
+		if plan.FinUndeliv {
+			for _, mode := range []string{"fail", "block"} {
+				for _, m := range finUndelivMembers {
+					out = append(out, schedrun.Scenario{Name: "sub-v1~finundeliv-" + mode + "/M/finundeliv/" + m, Mode: explore.Delay, Bound: 0, MaxSteps: 400000, Weight: 2})
+				}
 			}
 		}
 		if plan.HalfOpen {
